@@ -45,3 +45,29 @@ Fixpoint t_trace (b : tblock) (cs : list V) : list V :=
   end.
 Definition run_tracks (arg : V) : V :=
   ok (VL (t_trace (mkTB (vint (vnth 0 arg)) (map obj_of_v (vlist (vnth 1 arg)))) (vlist (vnth 2 arg)))).
+
+(* ---------- constructor checks (C19) ---------- *)
+From Model Require Export Shapes.
+(* pyval: [0] None | [1; n] str | [2] scalar | [3; n] list | [4; n] tuple | [5; shape] array | [6] viewport | [7] other *)
+Definition pyval_of_v (v : V) : pyval :=
+  let k := vint (vnth 0 v) in
+  if k =? 0 then PNone else if k =? 1 then PStr (Z.to_nat (vint (vnth 1 v))) else
+  if k =? 2 then PScalar else if k =? 3 then PList (Z.to_nat (vint (vnth 1 v))) else
+  if k =? 4 then PTuple (Z.to_nat (vint (vnth 1 v))) else
+  if k =? 5 then PArr (map Z.to_nat (zs_of (vnth 1 v))) else
+  if k =? 6 then PViewPort else POther.
+Definition res_unit (r : result unit) : V := of_result (fun _ => VL []) r.
+(* [ctor; args]: 1 geometry (rot tr vol) | 2 calibration (vol rot tr map) | 3 viewport (origin size)
+   | 4 seelab (8 args) | 5 optical channel (vp) | 6 force/torque track (ap force torque) | 7 event (values single) *)
+Definition run_ctor (arg : V) : V :=
+  let k := vint (vnth 0 arg) in
+  let a := map pyval_of_v (vlist (vnth 1 arg)) in
+  let g (i : nat) := nth i a POther in
+  if k =? 1 then res_unit (ctor_geometry (g 0%nat) (g 1%nat) (g 2%nat)) else
+  if k =? 2 then res_unit (ctor_calibration (g 0%nat) (g 1%nat) (g 2%nat) (g 3%nat)) else
+  if k =? 3 then res_unit (ctor_viewport (g 0%nat) (g 1%nat)) else
+  if k =? 4 then res_unit (ctor_seelab (g 0%nat) (g 1%nat) (g 2%nat) (g 3%nat) (g 4%nat) (g 5%nat) (g 6%nat) (g 7%nat)) else
+  if k =? 5 then res_unit (ctor_optical_channel (g 0%nat)) else
+  if k =? 6 then res_unit (ctor_ft_track (g 0%nat) (g 1%nat) (g 2%nat)) else
+  if k =? 7 then of_result (fun n => VI (Z.of_nat n)) (ctor_event (g 0%nat) (vint (vnth 2 arg) =? 1)) else
+  fail EOther.
